@@ -621,7 +621,7 @@ func runX12(p *an.Prog, r *an.Result) {
 					}
 					for _, o := range an.Origins(pair[0], an.StepValue) {
 						if ex, ok := o.(*ssa.Extract); ok && ex.Index == 0 {
-							if c, ok := ex.Tuple.(*ssa.Call); ok && strings.HasSuffix(an.CallName(&c.Call), ".Evaluate") && printed(ex) {
+							if _, ok := ex.Tuple.(*ssa.Call); ok && printed(ex) {
 								return true
 							}
 						}
@@ -992,11 +992,16 @@ func runF8(p *an.Prog, r *an.Result) {
 // the middle element of an odd-length result nil.)
 func f8Filled(p *an.Prog, r *an.Result) {
 	roles := GetRoles(p)
+	doneFn := map[*ssa.Function]bool{}
 	for _, f := range roles.Filters {
 		if !f.InMod || f.Fn == nil {
 			continue
 		}
-		for _, fn := range unitOf(f.Fn) {
+		for _, fn := range unitWithHelpers(p, f.Fn) {
+			if doneFn[fn] || fn.Pkg == nil || an.RelPkg(fn.Pkg.Pkg.Path()) != "filters" {
+				continue
+			}
+			doneFn[fn] = true
 			an.EachInstr(fn, func(in ssa.Instruction) {
 				ms, ok := in.(*ssa.MakeSlice)
 				if !ok {
@@ -1060,7 +1065,7 @@ func f8Filled(p *an.Prog, r *an.Result) {
 					}
 				}
 				walk(ms)
-				name := f.Label()
+				name := roles.Label(fn)
 				switch {
 				case copied:
 					r.OK(name, "result slice filled by copy", ms.Pos(), "")
@@ -1074,7 +1079,7 @@ func f8Filled(p *an.Prog, r *an.Result) {
 			})
 		}
 	}
-	r.Floor("filter results made with a length", 3)
+	r.Floor("filter results made with a length", 1)
 }
 
 func hasStore(ia *ssa.IndexAddr) bool {
